@@ -28,3 +28,35 @@ def sum (xs : List Dec) : Dec := xs.foldl add ⟨0, 0⟩
 def half (a : Dec) : Dec := ⟨a.int * 5, a.scale + 1⟩
 
 end BigDec.Spec
+
+namespace BigDec.Spec
+open BigDec
+
+/-- truncated-division remainder on the aligned integers: `a - b·trunc(a/b)`; `none` for `b = 0` -/
+def rem (a b : Dec) : Option Dec :=
+  let S := max a.scale b.scale
+  if b.int = 0 then none else some ⟨(alignTo a S).tmod (alignTo b S), S⟩
+
+end BigDec.Spec
+
+namespace BigDec.Spec
+open BigDec
+
+/-- the value truncated toward zero, as an integer -/
+def truncInt (d : Dec) : Int :=
+  if d.scale ≤ 0 then d.int * (10 ^ (-d.scale).toNat : Nat)
+  else (if d.int < 0 then -1 else 1) * ((d.int.natAbs / 10 ^ d.scale.toNat : Nat) : Int)
+
+def toSigned (bits : Nat) (d : Dec) : Option Int :=
+  let t := truncInt d
+  if -(2 ^ (bits - 1) : Int) ≤ t ∧ t < (2 ^ (bits - 1) : Int) then some t else none
+
+/-- a negative decimal never converts to an unsigned type -/
+def toUnsigned (bits : Nat) (d : Dec) : Option Int :=
+  if d.int < 0 then none
+  else let t := truncInt d; if t < (2 ^ bits : Int) then some t else none
+
+def isInteger (d : Dec) : Bool :=
+  if d.scale ≤ 0 then true else d.int.natAbs % 10 ^ d.scale.toNat == 0
+
+end BigDec.Spec
